@@ -572,6 +572,28 @@ impl Engine for C07 {
             }
             threads.push(reqs);
         }
+        // now and then: a document just over 2 MiB (cheap to transform: most of it is one
+        // comment) through the library and through the server
+        if index % 64 == 17 && !damage {
+            let n = 2_100_000 + w.below(400_000) as usize;
+            docs.push(Doc::from_str(&format!("<svg><!--{}--><rect wh=\"1\"/></svg>\n", "x".repeat(n))));
+            let d = docs.len() - 1;
+            for fe in ["str", if w.chance(1, 2) { "router" } else { "server-proc" }] {
+                client += 1;
+                threads[0].push(Req {
+                    fe: fe.to_string(),
+                    doc: d,
+                    cfg: 0,
+                    client,
+                    rplan: ReadPlan::default(),
+                    wplan: WritePlan::default(),
+                    out_pre: None,
+                    alias: None,
+                    fs_fault: None,
+                    burst: 0,
+                });
+            }
+        }
         // requests sent as a burst use a document heavy enough for the transforms to overlap
         // inside the server (a few milliseconds each)
         if !burst_reqs.is_empty() {
@@ -920,10 +942,28 @@ impl Engine for C07 {
                 continue;
             }
             // --- isolation / agreement with the golden result of the request's own pair
-            let g_for_fe: Outcome = match (fe, g) {
-                ("router" | "server-proc", Outcome::Ok(b)) if b.is_empty() => Outcome::Err("Empty response".into()),
-                (_, o) => o.clone(),
-            };
+            // a known disagreement, reported under a signature of its own (known_findings.json):
+            // where the library and the command give an empty rendering (an empty document),
+            // the server answers 400 "Empty response"
+            if matches!(fe, "router" | "server-proc") && matches!(g, Outcome::Ok(b) if b.is_empty()) && matches!(&r.outcome, Outcome::Err(t) if t.contains("Empty response")) {
+                res.violation(
+                    "agreement/empty-rendering",
+                    "c07:empty-rendering-is-an-error-for-the-server",
+                    format!("{where_}: the library renders this input to nothing (Ok, 0 bytes), the server answers HTTP 400 'Empty response'"),
+                );
+                continue;
+            }
+            // another known disagreement: the server refuses bodies over 2 MiB (413), the
+            // library and the command have no such bound
+            if matches!(fe, "router" | "server-proc") && scn.docs[r.req.doc].0.len() > 2 * 1024 * 1024 && matches!(r.http, Some((413, _))) && matches!(g, Outcome::Ok(_)) {
+                res.violation(
+                    "agreement/body-limit",
+                    "c07:body-over-2MiB-refused-by-the-server",
+                    format!("{where_}: a {} byte document is transformed by the library, the server answers HTTP 413", scn.docs[r.req.doc].0.len()),
+                );
+                continue;
+            }
+            let g_for_fe: Outcome = g.clone();
             let agrees = match (&r.outcome, &g_for_fe) {
                 (Outcome::Ok(a), Outcome::Ok(b)) => a == b,
                 // the statement asks for "an error", not for one message format across
@@ -1147,7 +1187,7 @@ impl Engine for C07 {
             "the transform path uses no OS synchronisation, so everything between two yield points is deterministic and the decision list is the interleaving",
             "the server endpoint can only express add_metadata; router requests use such configurations only",
             "child processes report errors in Debug form on stderr: only the outcome class and a non-empty message are compared for them",
-            "golden Ok(\"\") maps to HTTP 400 'Empty response' by design of the server",
+            "an empty rendering answered with HTTP 400 'Empty response' by the server is a known finding (own signature)",
         ]
     }
 }
